@@ -251,9 +251,10 @@ LawStableOwner(T) ==
 (*   ms = [cl |-> <<classes>>, ix |-> position]   (cl = << >>: (None,None))*)
 (* because get_mro_parameters / ast_is_supported_super_call .set() it and  *)
 (* only mro_context resets it.  Every resolution returns                   *)
-(*   [ps, ms, ev, crash]: parameters, context variable afterwards, the set *)
-(*   of named deviations met on the way, and whether the AST resolver      *)
-(*   raised (get_signature_parameters then falls back, 1115-1133).         *)
+(*   [ps, ms, ev]: parameters, context variable afterwards and the set of  *)
+(*   named deviations met on the way.  (Nothing in the grammar makes the   *)
+(*   AST resolver raise any more, so the stubs / assumptions fallback of   *)
+(*   get_signature_parameters:1115-1133 is never reached.)                 *)
 (* PT is the program with one more field: PT.top = the class the question  *)
 (* is about (0 for a function), used only to NAME deviation D1.            *)
 (*                                                                         *)
@@ -267,15 +268,21 @@ LawStableOwner(T) ==
 (*      remove_given_parameters puts n into removed_params (272-273) and   *)
 (*      line 817 then also drops the POPPED parameter n, which a caller    *)
 (*      can pass.                                                          *)
-(* (D3) "cond-regroup": group_parameters:422 calls .startswith on the      *)
-(*      origin of the first parameter of every list; for a conditional     *)
-(*      parameter that origin is a tuple, AttributeError escapes, the AST  *)
-(*      resolver is abandoned and get_parameters_by_assumptions answers.   *)
+(* (D3) "cond-regroup": REPAIRED in /repo by 6ff3c53 (group_parameters     *)
+(*      called .startswith on the tuple origin of a conditional parameter, *)
+(*      AttributeError escaped and the assumptions resolver answered).     *)
+(*      The transcription below is the repaired code: a list that starts   *)
+(*      with a conditional parameter counts as a non-pop/get use.          *)
+(* (D4) "double-positional": a class that INHERITS an __init__ whose body  *)
+(*      is super().__init__(value, **kwargs): current_mro points at the    *)
+(*      subclass, get_mro_parameters:475-483 selects the defining class    *)
+(*      again, the def is resolved twice and remove_given_parameters       *)
+(*      removes the parameter at index 0 twice (hard-coded KEYWORDS are    *)
+(*      removed by name, which is idempotent).                             *)
 (***************************************************************************)
 NoMro == [cl |-> << >>, ix |-> 0]
 PD(p, o) == [n |-> p.n, t |-> p.t, d |-> p.d, o |-> o, kind |-> "pk", org |-> "-"]
-Res(ps, ms, ev) == [ps |-> ps, ms |-> ms, ev |-> ev, crash |-> FALSE]
-Crashed(ms, ev) == [ps |-> << >>, ms |-> ms, ev |-> ev \cup {"cond-regroup"}, crash |-> TRUE]
+Res(ps, ms, ev) == [ps |-> ps, ms |-> ms, ev |-> ev]
 
 \* get_signature_parameters_and_indexes:281-301   inspect.signature without self and without **kwargs
 OwnParams(sig, o) == [i \in DOMAIN sig.ps |-> PD(sig.ps[i], o)]
@@ -298,16 +305,19 @@ Flatten(lists) == LET RECURSIVE F(_)
                   IN F(1)
 FirstOcc(flat) == SelectSeq([i \in DOMAIN flat |-> IF \E j \in 1..(i - 1) : flat[j].n = flat[i].n THEN [flat[i] EXCEPT !.n = "?dup?"] ELSE flat[i]],
                             LAMBDA p : p.n # "?dup?")
-GroupRaises(lists) == Len(lists) > 1 /\ \E i \in DOMAIN lists : lists[i][1].org = "cond"    \* 422: tuple.startswith
 GroupParameters(lists) ==
   IF Len(lists) = 1 THEN [i \in DOMAIN lists[1] |-> IF lists[1][i].org = "cond" THEN lists[1][i] ELSE [lists[1][i] EXCEPT !.org = "-"]]
-  ELSE LET nonpg == Cardinality({i \in DOMAIN lists : lists[i][1].org # "pg"})              \* non_get_pop_count
+  ELSE LET nonpg == Cardinality({i \in DOMAIN lists : lists[i][1].org # "pg"})              \* non_get_pop_count (422-424: a str origin
+                                                                                             \* with the pop/get prefix; a tuple is none)
            flat  == Flatten(lists)
            first == FirstOcc(flat)                                                           \* params_dict keeps first-seen order
            G(g)  == LET occ      == SelectSeq(flat, LAMBDA p : p.n = g.n)
                         types    == {occ[i].t : i \in DOMAIN occ} \ {"none"}
-                        defaults == {<<occ[i].o, occ[i].d>> : i \in {j \in DOMAIN occ : occ[j].d # "req"}}   \* values are unique per owner
-                    IN IF Len(occ) >= nonpg /\ Cardinality(types) <= 1 /\ Cardinality(defaults) <= 1
+                        \* unique(defaults): literal values are unique per owner; an UnknownDefault ("expr") or a
+                        \* ConditionalDefault ("cond") is a new object at every visit and equals nothing else
+                        literal  == {<<occ[i].o, occ[i].d>> : i \in {j \in DOMAIN occ : occ[j].d = "dflt"}}
+                        ndefault == Cardinality(literal) + Cardinality({j \in DOMAIN occ : occ[j].d \in {"expr", "cond"}})
+                    IN IF Len(occ) >= nonpg /\ Cardinality(types) <= 1 /\ ndefault <= 1
                        THEN [g EXCEPT !.org = "-"]
                        ELSE [g EXCEPT !.org = "cond", !.d = "cond", !.t = IF Cardinality(types) > 1 THEN "union" ELSE g.t]
        IN [i \in DOMAIN first |-> G(first[i])]
@@ -327,18 +337,6 @@ NextInMro(P, ms) ==
                  d # 0 /\ ~\E j \in (num + 1)..Len(ms.cl) : DefOf(P, ms.cl[j], "init") = d}
   IN IF cand = {} THEN 0 ELSE MinOf(cand)
 
-\* get_parameters_by_assumptions:1074-1091   the fallback: every **kwargs is assumed to go to the next __init__ in the MRO
-RECURSIVE AssumeClass(_, _, _)
-AssumeClass(PT, parent, ms) ==
-  LET X   == DefOf(PT, parent, "init")
-      I   == PT.classes[X].init
-      own == OwnParams(I, CLab[X])
-  IN IF ~I.kw THEN Res(own, ms, {})
-     ELSE LET inner == EnterMro(PT, parent, ms)
-              num   == NextInMro(PT, inner)
-              sub   == IF num = 0 THEN Res(<< >>, inner, {}) ELSE AssumeClass(PT, inner.cl[num], [inner EXCEPT !.ix = num])
-          IN Res(ReplaceKw(own, sub.ps), IF TokenSet(parent, ms) THEN ms ELSE sub.ms, {})
-
 RECURSIVE GspClass(_, _, _, _)
 RECURSIVE GspFn(_, _, _, _)
 RECURSIVE AstKwargs(_, _, _, _, _, _)
@@ -347,6 +345,9 @@ RECURSIVE AstKwargs(_, _, _, _, _, _)
 \* plab = owner label of its pop/get parameters, ctx = the helper chain the def belongs to / calls
 AstKwargs(PT, parent, fw, ms, plab, ctx) ==
   LET hard    == SetOf(fw.hard)
+      \* (D4) the class chosen by get_mro_parameters has the very def that is being analysed (it was inherited by the
+      \* class the visitor was created for) and the call passes a positional argument
+      Again(r, c) == IF fw.pos > 0 /\ parent # 0 /\ DefOf(PT, c, "init") = ctx.cid THEN [r EXCEPT !.ev = @ \cup {"double-positional"}] ELSE r
       \* 781-786 + get_kwargs_pop_or_get_parameter:741-761   one single-parameter list per pop/get call; the default is
       \* unknown ("expr") when it is not a literal
       poplists == [i \in DOMAIN fw.q |-> << [n |-> fw.q[i], t |-> "none", d |-> PopDflt(fw, fw.q[i]), o |-> plab, kind |-> "ko", org |-> "pg"] >>]
@@ -355,13 +356,13 @@ AstKwargs(PT, parent, fw, ms, plab, ctx) ==
         CASE fw.k = "ignore" -> Res(<< >>, ms, {})
           [] fw.k = "super0" ->                                                          \* 217-221: super() is supported
                LET num == NextInMro(PT, ms) IN
-               IF num = 0 THEN Res(<< >>, ms, {}) ELSE GspClass(PT, ms.cl[num], "init", [ms EXCEPT !.ix = num])
+               IF num = 0 THEN Res(<< >>, ms, {}) ELSE Again(GspClass(PT, ms.cl[num], "init", [ms EXCEPT !.ix = num]), ms.cl[num])
           [] fw.k = "superB" ->                                                          \* 222-235: search classes[idx:] for B
                LET offs == {i \in ms.ix..Len(ms.cl) : ms.cl[i] = fw.b} IN
                IF ms.cl = << >> \/ offs = {} THEN Res(<< >>, ms, {})                     \* unsupported super parameters
                ELSE LET ms2 == [ms EXCEPT !.ix = MinOf(offs)]
                         num == NextInMro(PT, ms2)
-                    IN IF num = 0 THEN Res(<< >>, ms2, {}) ELSE GspClass(PT, ms2.cl[num], "init", [ms2 EXCEPT !.ix = num])
+                    IN IF num = 0 THEN Res(<< >>, ms2, {}) ELSE Again(GspClass(PT, ms2.cl[num], "init", [ms2 EXCEPT !.ix = num]), ms2.cl[num])
           [] fw.k \in {"func", "attr"} ->
                \* "attr": 806-812 the assignment self.<attr> = kwargs (or the dict assignment found through dict_assigns,
                \* visit_Call:582-586) -> get_parameters_attr_use_in_members:820-834 -> get_parameters_call_attr:847-859 ->
@@ -384,18 +385,15 @@ AstKwargs(PT, parent, fw, ms, plab, ctx) ==
       lists   == IF fw.qpos \in {"arg", "kw"} THEN fwdlist \o poplists ELSE poplists \o fwdlist
       ev      == call.ev \cup (IF removed \cap SetOf(fw.q) # {} THEN {"pop-then-hard"} ELSE {})
   IN IF Len(lists) = 0 THEN Res(<< >>, call.ms, ev)
-     ELSE IF GroupRaises(lists) THEN Crashed(call.ms, ev)                                \* 816 -> 422 raises
      ELSE Res(SelectSeq(GroupParameters(lists), LAMBDA p : p.n \notin removed), call.ms, ev)   \* 816-818 (no positional-only)
 
-\* ParametersVisitor.get_parameters:867-883 for a function of a chain (no parent: mro_context does nothing),
-\* inside get_signature_parameters:1115-1133 (an exception of the AST resolver selects the assumptions resolver,
-\* which for a function returns its own named parameters)
+\* ParametersVisitor.get_parameters:867-883 for a function of a chain (no parent: mro_context does nothing)
 GspFn(chain, j, cid, env) ==
   LET s    == chain[j]
       own  == OwnParams(s, FLab[cid][j])
   IN IF ~s.kw THEN Res(own, env.ms, {})
      ELSE LET r == AstKwargs(env.PT, 0, s.fw, env.ms, QLab[cid][j], [chain |-> chain, j |-> j, cid |-> cid])
-          IN IF r.crash THEN Res(own, r.ms, r.ev) ELSE Res(ReplaceKw(own, r.ps), r.ms, r.ev)
+          IN Res(ReplaceKw(own, r.ps), r.ms, r.ev)
 
 \* get_component_and_parent:486-527 + get_parameters:867-883 for (class, "__init__") and (class, "m"), inside
 \* get_signature_parameters:1115-1133
@@ -409,8 +407,7 @@ GspClass(PT, parent, what, ms) ==
           ELSE LET inner == EnterMro(PT, parent, ms)                                        \* with mro_context(self.parent)
                    r     == AstKwargs(PT, parent, I.fw, inner, PLab[X], [chain |-> I.fw.chain, j |-> 0, cid |-> X])
                    after == IF TokenSet(parent, ms) THEN ms ELSE r.ms                       \* finally: current_mro.reset(token)
-               IN IF r.crash THEN LET a == AssumeClass(PT, parent, after) IN Res(a.ps, a.ms, r.ev)
-                  ELSE Res(ReplaceKw(own, r.ps), after, r.ev)
+               IN Res(ReplaceKw(own, r.ps), after, r.ev)
 
 \* get_signature_parameters:1094-1134
 AlgRun(P, comp) == IF comp.k = "cls" THEN GspClass([classes |-> P.classes, top |-> comp.c], comp.c, "init", NoMro)
@@ -418,7 +415,7 @@ AlgRun(P, comp) == IF comp.k = "cls" THEN GspClass([classes |-> P.classes, top |
 AlgResolve(P, comp) == AlgRun(P, comp).ps
 AlgNames(P, comp)   == NamesOf(AlgResolve(P, comp))
 DevOf(ev) == IF "static-dispatch" \in ev THEN "static-dispatch"
-             ELSE IF "cond-regroup" \in ev THEN "cond-regroup"
+             ELSE IF "double-positional" \in ev THEN "double-positional"
              ELSE IF "pop-then-hard" \in ev THEN "pop-then-hard" ELSE "-"
 Deviation(P, comp)  == DevOf(AlgRun(P, comp).ev)
 
